@@ -121,7 +121,10 @@ func (pl *lStatePool) New() *lua.LState {
 	}
 
 	getArgs := func(ls *lua.LState) (evalCmd string, args []string) {
-		evalCmd = ls.GetGlobal("EVAL_CMD").String()
+		// the mode of the running script (eval, evalro, evalna, ...) is read
+		// from the registry, which scripts cannot modify; the EVAL_CMD global is
+		// only informational
+		evalCmd = ls.G.Registry.RawGetString("EVAL_CMD").String()
 
 		// Trying to work with unknown number of args.
 		// When we see empty arg we call it enough.
@@ -475,6 +478,8 @@ func (s *Server) cmdEvalUnified(scriptIsSha bool, msg *Message) (res resp.Value,
 			"DEADLINE": luaDeadline,
 			"EVAL_CMD": lua.LString(msg.Command()),
 		})
+	luaState.G.Registry.RawSetString("EVAL_CMD", lua.LString(msg.Command()))
+	defer luaState.G.Registry.RawSetString("EVAL_CMD", lua.LNil)
 	// clear the per-call globals on every exit, before the state goes back to
 	// the pool
 	defer luaSetRawGlobals(
